@@ -1,5 +1,74 @@
-"""C12 - Colours survive the trip through their raw representation  (metadata; generators live here and/or in props/C12_*.py parts)"""
+"""C12 - Colours survive the trip through their raw representation."""
+from common import *
+import colorgen
+
 CLAIMED = False   # set True by the owner once ./check C12 passes with real theorems
 LEVEL = 'proof'
 LEVEL_TEXT = 'TODO'
 LEVEL_NOTE = 'TODO'
+RULE = ('correspondence (extracted model vs real library, per colour type of the generated table): col_info = BITS_PER_PIXEL, storage bits, '
+        'byte count, MAX_R/G/B or max luma, BLACK/WHITE of the running library against the GENERATED table; col_raw = for a storage value v: '
+        'Color::from(Raw::new(v)) -> channels, Raw::from(c), into_storage, to_be_bytes, to_le_bytes: ALL storage values for u8/u16 storage, '
+        'one 255-value progression (stride 257, random offset) in each of the 256 strata of 2^16 for 24-bit types plus values with bits 24..31 set; '
+        'col_new = new() with one u8 argument sweeping 0..255 and the other two from edge/random values. '
+        'search: p_raw / p_new evaluate the property predicates against the documented layout on the implementation, all 2^24 raw values and all '
+        '2^24 (r,g,b) argument triples of every type. Non-trivial = result line not empty; distinct = distinct case lines.')
+EXHAUSTIVE = {'quick': False, 'thorough': False}
+ASSUMPTIONS = []
+TRUSTED = []
+PARTIAL = []
+
+EDGE8 = [0, 1, 2, 3, 7, 8, 15, 16, 31, 32, 63, 64, 127, 128, 129, 254, 255]
+
+
+def cases(tier, rng):
+    types, _ = colorgen.load()
+    names = [t[0] for t in types]
+    for n in names + [f[0] for f in colorgen.FALLBACK_TYPES if f[0] not in names]:
+        yield J('col_info', n)
+    for name, kind, sbits, bpp in types:
+        if sbits <= 16:
+            total = 2 ** sbits
+            for s in range(0, total, 256):
+                yield J('col_raw', name, s, 256, 1)
+        else:
+            reps = 1 if tier == 'quick' else 8
+            for _ in range(reps):
+                for k in range(2 ** bpp // 65536):
+                    yield J('col_raw', name, k * 65536 + rng.randrange(256), 255, 257)
+            # values with unused storage bits (above BITS_PER_PIXEL) set
+            for _ in range(16 * reps):
+                yield J('col_raw', name, rng.randrange(2 ** bpp, 2 ** sbits - 255 * 65537), 255, rng.choice([1, 257, 65537]))
+            yield J('col_raw', name, 2 ** sbits - 256, 256, 1)
+            yield J('col_raw', name, 0, 256, 1)
+            yield J('col_raw', name, 2 ** bpp - 256, 256, 1)
+        if kind == 'rgb':
+            n = 8 if tier == 'quick' else 64
+            for axis in range(3):
+                yield J('col_new', name, axis, 0, 0)
+                yield J('col_new', name, axis, 255, 255)
+                for _ in range(n):
+                    yield J('col_new', name, axis, rng.choice([rng.choice(EDGE8), rng.randrange(256)]),
+                            rng.choice([rng.choice(EDGE8), rng.randrange(256)]))
+        else:
+            yield J('col_new', name, 0, 0, 0)
+
+
+def search(tier, rng):
+    types, _ = colorgen.load()
+    for name, kind, sbits, bpp in types:
+        # every raw value (through Raw::new of every storage value for u8/u16 storage)
+        if sbits <= 16:
+            yield J('p_raw', name, 0, 2 ** sbits, 1)
+        else:
+            for k in range(16):
+                yield J('p_raw', name, k * 2 ** 20, 2 ** 20, 1)
+            for _ in range(16):
+                yield J('p_raw', name, rng.randrange(2 ** bpp, 2 ** sbits - 65536 * 4099), 65536, rng.choice([1, 257, 4099]))
+            yield J('p_raw', name, 2 ** sbits - 65536, 65536, 1)
+        # every argument triple of new()
+        if kind == 'rgb':
+            for k in range(16):
+                yield J('p_new', name, k * 16, k * 16 + 16)
+        else:
+            yield J('p_new', name, 0, 256)
